@@ -327,6 +327,11 @@ def render_case(data, ev, d, fails):
     case = {"part": "render", "data": list(data)}
     try:
         res, errs = sch.run([worker(i) for i in range(nthreads)])
+    except S.StepLimit:
+        # a generated program with long loops traced line by line in three threads: inconclusive, not a deadlock
+        ev.rejected += 1
+        ev.label("rejected:render-step-limit")
+        return
     except S.Deadlock as e:
         fails.setdefault("render-deadlock", Failure(case, "deadlock while rendering concurrently: %s\n%s" % (e, src), "render-deadlock"))
         return
@@ -484,6 +489,28 @@ def shard_random(task):
     return ev, list(fails.values())
 
 
+def shard_lookup_sweep(task):
+    """every schedule with exactly ONE preemption of thread `first`, at line granularity, for one lookup scenario: the
+    shape of 'a modification lands while another thread is half way through loading the template'"""
+    kind, threads, variant, first = task
+    core.setup_repo()
+    ev = core.Evidence()
+    fails = {}
+    case = {"part": "lookup", "kind": kind, "threads": threads, "variant": variant}
+    with core.TempDir() as d:
+        k = 0
+        while k < 1200:
+            sch, detail, key = execute(case, S.OnePreemptionChooser(k, first), d, fine=True)
+            if detail:
+                fails.setdefault(key, make_failure(case, sch, detail, key, True))
+            ev.case(key=[kind, threads, variant, "sweep", first, k], nontrivial=sch.preemptions >= 1,
+                    labels=("fine-sweep:" + kind,))
+            if k > len(sch.choices) + 2:
+                break  # thread `first` finished before the preemption point
+            k += 1
+    return ev, list(fails.values())
+
+
 def shard_first_use_sweep(task):
     """every schedule with exactly ONE preemption of thread `first` (after its k-th scheduling decision) for the first-use scenario"""
     first, lo, hi, stride = task
@@ -509,6 +536,9 @@ def run(ctx):
             for variant in range(ctx.pick(2, 6)):
                 tasks.append((kind, threads, variant, ctx.pick(1500, 20000)))
     ctx.pmap(shard_dfs, tasks)
+    ctx.pmap(shard_lookup_sweep, [(kind, threads, variant, first) for kind in ("modify-race", "failing-compile", "bounded-vanish")
+                                  for threads in (2, 3) for variant in range(6 if kind == "modify-race" else 2)
+                                  for first in range(threads)])
     ctx.pmap(shard_random, [(ctx.shard_seed(i), ctx.pick(60, 1500), ctx.pick(25, 500)) for i in range(16)])
 
 
